@@ -74,7 +74,10 @@ def check(ctx):
             v = u[0]
         a = m_call(v, name='encrypt_subject', self_suffix='Envelope')
         if a is None:
-            return False
+            # one delegation further down: encrypt_subject(x, k) is encrypt_subject_opt(x, k, None) (judged just below)
+            a = m_call(v, name='encrypt_subject_opt', self_suffix='Envelope')
+            if a is None or len(a) != 3 or not (strip_sites(a[2])[0] == 'agg' and strip_sites(a[2])[2] == 'None'):
+                return False
         w = m_call(a[0], name='wrap_envelope', self_suffix='Envelope') or m_call(a[0], name='new_wrapped')
         return w is not None and w[0] == P1
     expect('C02.5', 'encrypt', enc_pred, 'encrypt_subject(wrap(self), key)', 'encrypt')
